@@ -99,7 +99,7 @@ def plan(tier, seed):
     for fk, mk in (("3d", "hexahedron"), ("ps", "quad"), ("axi", "quad"), ("mixed3d", "hexahedron")):
         for item in ("pointload", "force", "gravity"):
             cases.append(dict(key=f"{item}/{fk}", kind="load", item=item, mesh=mk, fk=fk, amp=0.1, seed=seed, tier=tier))
-    for name in ("form-penalty", "form-hyperelastic", "form-mixed"):
+    for name in ("form-penalty", "form-penalty/triangle", "form-penalty/quad9", "form-hyperelastic", "form-mixed"):
         cases.append(dict(key=f"formitem/{name}", kind="form", name=name, seed=seed, tier=tier, cost=5))
     return cases
 
@@ -152,7 +152,7 @@ def material(name, region, ms=1.0):
     import felupe as fem
     import felupe.constitution as C
 
-    q, nc = region.quadrature.npoints, region.mesh.ncells
+    q, nc = (region.quadrature.npoints, region.mesh.ncells) if region is not None else (1, 1)
     sv = None
     if ms != 1.0:  # another stress unit: all moduli x ms (implemented for the materials of the unit-system cases)
         if name == "NeoHooke":
@@ -538,8 +538,9 @@ def run(case):
         from felupe.math import ddot, dot, grad, trace, det, inv, transpose
 
         name = case["name"]
-        if name == "form-penalty":
-            mesh, region, field = make_field("quad", "renum", "2d", seed)
+        if name.startswith("form-penalty"):
+            # (triangle: 36, quad9: 324 entries per cell matrix -- thread counts that are no multiple of a power of two)
+            mesh, region, field = make_field(name.split("/")[1] if "/" in name else "quad", "renum" if "/" not in name else "distorted", "2d", seed)
             hm = set_state(field, mesh, 0.1, seed)
             body = fem.SolidBody(C.LinearElasticPlaneStress(E=2.0, nu=0.3), field)
             kpen = 7.0
@@ -554,6 +555,15 @@ def run(case):
 
             item = fem.FormItem(bilinearform=a, linearform=L)
             fd_check(c, "K", [body, item], field, 2e-5 * hm, symmetric=True)
+            # the threaded assembly path (parallel=True: one thread per entry of the cell matrix) gives the same system
+            Ks = fem.tools.jac([body, item], field).toarray()
+            Kp = fem.tools.jac([body, item], field, parallel=True).toarray()
+            rs = np.asarray(fem.tools.fun([body, item], field), float)
+            rp = np.asarray(fem.tools.fun([body, item], field, parallel=True), float)
+            c.trans += 4
+            c.traces += 2
+            if np.abs(Kp - Ks).max() > 1e-13 * np.abs(Ks).max() or np.abs(rp - rs).max() > 1e-13 * max(np.abs(rs).max(), 1e-300):
+                c.bad("parallel", "system assembled with parallel=True differs from the serial one", dict(matrix=float(np.abs(Kp - Ks).max() / np.abs(Ks).max()), vector=float(np.abs(rp - rs).max())), 0, 1e-13)
         elif name == "form-hyperelastic":
             mesh, region, field = make_field("hexahedron", "renum", "3d", seed)
             hm = set_state(field, mesh, 0.1, seed)
